@@ -1344,10 +1344,10 @@ def scripted_handlers():
             ['export-badpath', 0, '/a/b', '/a/b//x', v], ['export-raising', 0, '/a/b', v, 0], ['again', 1, 2],
             ['export', 0, '/a', 'KA', v], ['export-badpath', 0, '/a/bc', '/a/bc/', v], ['again', 0, 3], ['unexport', 1, '/a/b'],
             ['again', 1, 4]]
-    for handlers in (['h', 'h'], ['h', 'c']):
-        for fresh, variant, first in ((False, 0, None), (True, 1, ['Base', 'KAB']), (True, 2, ['KAB', 'Base'])):
-            out.append(handlers_hist(uni, ops, handlers, fresh=fresh, variant=variant, first=first))
-            out.append(handlers_hist(uni, ops2, handlers, fresh=fresh, variant=variant, first=first))
+    for handlers, fresh, variant, first in ((['h', 'h'], False, 0, None), (['h', 'h'], True, 1, ['Base', 'KAB']),
+                                            (['h', 'c'], True, 2, ['KAB', 'Base'])):
+        out.append(handlers_hist(uni, ops, handlers, fresh=fresh, variant=variant, first=first))
+        out.append(handlers_hist(uni, ops2, handlers, fresh=fresh, variant=variant, first=first))
     return out
 
 
@@ -2052,7 +2052,7 @@ def run(ctx):
 
     # ---- several handlers alive in one scenario, the same instances on several of them, failing exports in between
     hs = scripted_handlers()
-    n = ctx.scale(quick=20, thorough=200)
+    n = ctx.scale(quick=16, thorough=200)
     for i in range(n):
         base = FIXED_UNIVERSE if i % 2 == 0 else FIXED_UNIVERSE_2
         uni = sorted(set(rng.sample(base, rng.randrange(3, 7)) + (['/'] if i % 3 == 0 else [])))
